@@ -519,7 +519,8 @@ Lemma level_inv C S frs fuel pub cn rt r sels at_ tv out pub' g cov nested :
     out = {| c_name := cn; c_bases := ["BaseModel"]; c_fields := pfl |} :: extra.
 Proof.
   intros H Hok Hat. simpl in H. apply body_inv in H.
-  destruct H as [[_ [_ [_ H]]] | [M [fields0 [mixins [pfl [extra [Hres [Hrun Hout]]]]]]]]; [discriminate|].
+  destruct H as [[_ [_ [_ H]]] | [M [fields0 [mixins [pfl [extra [Hres [Hrun [kept [Hk Hout]]]]]]]]]];
+    [discriminate|].
   destruct (resolve_ok_fuel _ _ _ _ _ _ Hres) as [f2 Ef]. subst fuel.
   destruct (sels_ok_inv _ _ _ _ _ _ _ _ _ Hok) as [g' [fns [Eg [Hfl _]]]].
   pose proof (flatten_resolve_det _ _ _ _ _ _ _ _ _ Hfl Hres) as E. inversion E; subst fields0 mixins.
